@@ -11,7 +11,8 @@ RULE = ("histogram cases: 1-5 training sequences (ints, quarter steps, random fl
         "the training sequences, the training minimum and maximum, the absolute bounds, every fitted bin edge "
         "and its two neighbouring doubles, far outliers (+-1e6, +-1e300), an empty sequence. KDE cases: numpy "
         "sequences x n_components x kernel (6 sklearn kernels) x bandwidth (given; a few estimated) x grid "
-        "strategy; every transform row is recomputed on 3 permutations of its sequence. Non-trivial = a histogram "
+        "strategy; every transform row is recomputed on 3 permutations of its sequence; 30-40 % of the estimators "
+        "were fitted on an affine image of the data (and used) before the fit that is checked. Non-trivial = a histogram "
         "case whose transform inputs contain a value equal to a fitted inner edge or training extreme AND a value "
         "outside the absolute range or the training range; a KDE case with a sequence of >= 3 distinct values "
         "whose permutation is not the identity.")
@@ -160,6 +161,11 @@ def generate(rng, tier):
               for _ in range(rng.randint(0, 2))]
         cs.append(_kde(X, rng.choice([2, 3, 5, 8, 20]), rng.choice(KERNELS), bw, rng.choice(["uniform", "density"]),
                        Xt, [rng.randrange(1 << 30) for _ in range(3)]))
+        if rng.random() < 0.4:
+            cs[-1]["prefit"] = [rng.choice([0.5, 2.0, 3.0]), rng.choice([-40.0, 10.0, 100.0])]
+    for c in cs:
+        if c["kind"] == "hist" and rng.random() < 0.3:
+            c["prefit"] = [rng.choice([0.5, 2.0, 3.0]), rng.choice([-40.0, 10.0, 100.0])]
     return cs
 
 
@@ -198,6 +204,14 @@ def run_impl(case):
         try:
             m = HistogramVectorizer(n_components=case["n"], strategy=case["strategy"], absolute_range=(lo, hi),
                                     append_outlier_bins=case["outlier"])
+            if case.get("prefit"):
+                # history: the same estimator was fitted on other data and used before
+                try:
+                    P = [conv([case["prefit"][0] * v + case["prefit"][1] for v in s]) for s in case["X"]]
+                    m.fit(P)
+                    m.transform(P)
+                except Exception:
+                    pass
             r = m.fit(X)
             out["fit_returns_self"] = r is m
             bi = m.bin_intervals_
@@ -229,6 +243,11 @@ def run_impl(case):
             R = m.transform([conv(s) for s in Xt])
             out["rows"] = [[_num(v) for v in row] for row in R]
             out["shape"] = [int(x) for x in R.shape]
+            if case.get("prefit"):
+                f = HistogramVectorizer(n_components=case["n"], strategy=case["strategy"], absolute_range=(lo, hi),
+                                        append_outlier_bins=case["outlier"]).fit(X)
+                Rf = f.transform([conv(s) for s in Xt])
+                out["fresh_same"] = bool(R.shape == Rf.shape and np.array_equal(np.asarray(R), np.asarray(Rf)))
         except Exception as e:
             out["transform_exc"] = f"{type(e).__name__}: {e}"
         return out
@@ -239,6 +258,13 @@ def run_impl(case):
     try:
         m = KDEVectorizer(n_components=case["n"], bandwidth=case["bandwidth"], kernel=case["kernel"],
                           evaluation_grid_strategy=case["grid"])
+        if case.get("prefit"):
+            try:
+                P = [case["prefit"][0] * x + case["prefit"][1] for x in X]
+                m.fit(P)
+                m.transform(P)
+            except Exception:
+                pass
         r = m.fit(X)
         out["fit_returns_self"] = r is m
     except Exception as e:
@@ -252,6 +278,11 @@ def run_impl(case):
         out["rows"] = [[float(v) if math.isfinite(v) else str(v) for v in row] for row in R]
         out["perm_rows"] = []
         out["perm_moved"] = []
+        if case.get("prefit"):
+            f = KDEVectorizer(n_components=case["n"], bandwidth=case["bandwidth"], kernel=case["kernel"],
+                              evaluation_grid_strategy=case["grid"]).fit(X)
+            Rf = f.transform([np.array(s, dtype=float) for s in seqs])
+            out["fresh_same"] = bool(np.shape(R) == np.shape(Rf) and np.allclose(np.asarray(R), np.asarray(Rf), rtol=1e-9, atol=1e-12, equal_nan=True))
         for seed in case["perms"]:
             P = [_permute(s, seed) for s in seqs]
             out["perm_moved"].append(any(p != s for p, s in zip(P, seqs)))
@@ -334,6 +365,9 @@ def oracle(case, outs):
     if "transform_exc" in o:
         return [_F(f"{kind}.transform-raises", f"transform raises {o['transform_exc']} for {case}")]
     fails = []
+    if o.get("fresh_same") is False:
+        fails.append(_F(f"{kind}.refit-differs-from-fresh", f"an estimator fitted on {case['prefit'][0]} * X + {case['prefit'][1]}, used, then re-fitted on X "
+                        f"gives other rows than a fresh estimator fitted on X; case {case}"))
     if kind == "hist":
         lo, hi = _fr(_rat(case["range"][0])), _fr(_rat(case["range"][1]))
         bins = [(_fr(a), _fr(b)) for a, b in o["bins"]]
